@@ -10,6 +10,7 @@ var registry = map[string]func() *check.Property{
 	"C01": C01,
 	"C02": C02,
 	"C03": C03,
+	"C04": C04,
 	"C05": C05,
 	"C06": C06,
 	"C07": C07,
@@ -21,6 +22,7 @@ var registry = map[string]func() *check.Property{
 	"C13": C13,
 	"C14": C14,
 	"C15": C15,
+	"C17": C17,
 }
 
 func ByID(id string) *check.Property {
